@@ -68,6 +68,10 @@ var ops = []op{
 		was := e.closed.Load()
 		return judge(e, "Delete", was, e.idx.Delete("seed"))
 	}},
+	{"delete-missing", func(e *env) string {
+		was := e.closed.Load()
+		return judge(e, "Delete", was, e.idx.Delete("never-indexed"))
+	}},
 	{"batch", func(e *env) string {
 		was := e.closed.Load()
 		b := e.idx.NewBatch()
@@ -205,6 +209,8 @@ func body(engine string, names []string) func(c *drv.Ctx) {
 			m := bleve.NewIndexMapping()
 			if engine == "upsidedown" {
 				idx, err = bleve.NewUsing("", m, "upside_down", "gtreap", nil)
+			} else if engine == "upsidedown-boltdb" {
+				idx, err = bleve.NewUsing(c.Dir+"/idx", m, "upside_down", "boltdb", nil)
 			} else {
 				idx, err = bleve.NewUsing(c.Dir+"/idx", m, scorch.Name, scorch.Name, nil)
 			}
@@ -309,6 +315,12 @@ func Scenarios() []drv.Scenario {
 	out[len(out)-1].Quick = []drv.Phase{{Bound: 1}}
 	mk("upsidedown", "batch", "fielddict", "close")
 	out[len(out)-1].Quick = []drv.Phase{{Bound: 1}}
+	// upsidedown over its default store: bbolt is instrumented too (a read transaction keeps bbolt's
+	// mmap lock across calls, so a reader that is not closed blocks Close for ever)
+	mk("upsidedown-boltdb", "delete-missing", "search", "close")
+	out[len(out)-1].Quick = []drv.Phase{{Bound: 1}}
+	mk("upsidedown-boltdb", "batch", "document", "close")
+	out[len(out)-1].Quick = []drv.Phase{{Bound: 1}}
 	for i, a := range base {
 		for _, b := range base[i:] {
 			mk("scorch", a, b, "close")
@@ -317,9 +329,13 @@ func Scenarios() []drv.Scenario {
 	for _, t := range [][]string{{"index", "batch", "forcemerge"}, {"search-cancel", "cancel", "batch"}, {"copyto", "forcemerge", "index"}, {"delete", "fielddict", "search"}} {
 		mk("scorch", t...)
 	}
-	for _, t := range [][]string{{"search-cancel", "cancel", "close"}, {"delete", "document", "close"}, {"index", "index", "close"}} {
+	for _, t := range [][]string{{"search-cancel", "cancel", "close"}, {"delete", "document", "close"}, {"index", "index", "close"}, {"delete-missing", "batch", "close"}} {
 		mk("upsidedown", t...)
 	}
+	for _, t := range [][]string{{"index", "search", "close"}, {"delete", "fielddict", "close"}, {"delete-missing", "batch", "close"}, {"index", "doccount", "delete-missing"}, {"search-cancel", "cancel", "close"}} {
+		mk("upsidedown-boltdb", t...)
+	}
+	mk("scorch", "delete-missing", "batch", "close")
 	return out
 }
 
